@@ -143,7 +143,7 @@ func main() {
 			return
 		}
 
-		n := c.Size(450, 20000)
+		n := c.Size(800, 20000)
 		for i := 0; i < n && !scanx.Hung; i++ {
 			r := c.R
 			cfg := &scanx.Cfg{SymlinkMode: slModes[i%3], PermsMode: pmModes[(i/3)%2]}
